@@ -25,3 +25,18 @@ pub(crate) fn set_slots2<'e, U>(
     let old = std::mem::replace(&mut ctx.values, Box::new([v0, v1]));
     std::mem::forget(old);
 }
+
+/// Point the context's slot box at caller-owned, TYPED storage (a local array) instead of a heap
+/// allocation.  CBMC models heap allocations as untyped byte arrays and then cannot fold the
+/// niche-encoded tag of `Option<LhsValue>` read back from them, so every drop / clone of a slot
+/// explores the whole recursive `LhsValue` glue (measured: no result in 5 min even for `None`);
+/// read from a typed local the tag folds (2 s).  The caller must `mem::forget` the context (and
+/// whatever the slot box is moved into) before the storage goes out of scope: the box is never
+/// freed.  Constructs a pre-state; not a model.
+pub(crate) unsafe fn set_slots_raw<'e, U>(
+    ctx: &mut ExecutionContext<'e, U>,
+    slots: *mut [Option<LhsValue<'e>>],
+) {
+    let old = std::mem::replace(&mut ctx.values, unsafe { Box::from_raw(slots) });
+    std::mem::forget(old);
+}
